@@ -473,8 +473,11 @@ class Interp:
             files = [x for x in (sb.companion(arch) if step["where"] == "companion" else sb.homefiles(arch)) if h in x]
             if not files or (sb.readonly and step["where"] == "companion"):
                 return
-            with open(files[0], "rb") as fh:
-                data = pickle.load(fh)
+            try:
+                with open(files[0], "rb") as fh:
+                    data = pickle.load(fh)
+            except Exception:
+                return  # the entry was cut or overwritten by an earlier step of this history: nothing to re-version
             if not isinstance(data, dict) or "internal_version" not in data:
                 return
             data["internal_version"] = data["internal_version"] + step["delta"]
